@@ -58,3 +58,57 @@ register(PropertySpec(
                  "function objects are identified by definition site"],
     design_ref="DESIGN.md §2 C03",
 ))
+
+from . import modes, reset
+
+register(PropertySpec(
+    id="C08",
+    title="symbolic mode is confined to its block",
+    rules=[
+        Rule("MODE-WRITER", modes.rule_mode_writer, 3,
+             "who-may-call over the whole package: the mode context variable is written only by _set_symbolic_mode, "
+             "which is called only by the symbolic_mode context manager"),
+        Rule("MODE-PAIRING", modes.rule_mode_pairing, 6,
+             "in symbolic_mode: previous mode saved before the write; the saved mode is restored on every normal, "
+             "exceptional and generator-close path after the write and after the yield; query.__enter__/__exit__ "
+             "paired; rule_mode delegates"),
+        Rule("STACK-PAIRING", modes.rule_stack_pairing, 2,
+             "__enter__ pushes exactly once and __exit__ pops exactly once on every path; nobody else mutates the "
+             "expression-context stack"),
+        Rule("NO-YIELD-UNDER-MODE", modes.rule_no_yield_under_mode, 20,
+             "no generator other than the context managers themselves suspends (yield) inside a with "
+             "symbolic_mode/rule_mode region"),
+        Rule("OP-GUARD", modes.rule_op_guard, 10,
+             "abstract interpretation of each of the 10 operator hooks with in_symbolic_mode() == False: no return is "
+             "reachable (the hook raises), through helper calls too"),
+        Rule("MODE-BRANCH", modes.rule_mode_branch, 4,
+             "hybrid_new and the @predicate wrapper under each constant mode reach only their own arm"),
+    ],
+    explanation="The mode is a context variable with a closed set of writers, so confinement is a pairing property over "
+                "all exits of the code that writes it. Decided on the CFG with exceptional and generator-suspension "
+                "edges: save-before-write, restore on all exits, no suspension under an override anywhere in the "
+                "package, guards on every operator hook (by abstract interpretation under the constant mode), and arm "
+                "separation of the mode-dependent constructors.",
+    assumptions=["thread/async interleavings are not modelled (the expression stack is a class-level list)",
+                 "__exit__ of the context managers does not swallow exceptions (they are try/finally generators)"],
+    design_ref="DESIGN.md §2 C08",
+))
+
+register(PropertySpec(
+    id="C09",
+    title="evaluation gives the same answer inside and outside a symbolic block",
+    rules=[
+        Rule("MODE-OFF-DOM", modes.rule_mode_off_dom, 2,
+             "every program point of a public evaluate() that runs evaluation (calls a plain evaluator, or advances an "
+             "evaluation generator) lies inside `with symbolic_mode(mode=None)`"),
+        Rule("USERCODE-REACH", modes.rule_usercode_reach, 6,
+             "the sites that run user code (predicate call, self._type_(**…), getattr/[]/() on user values, the "
+             "comparison operator) are reachable only through the evaluation protocol, hence only under the entries"),
+    ],
+    explanation="User predicates and @symbol constructors consult the ambient mode; the result is mode-independent iff "
+                "every public entry switches the mode off around every point at which evaluation runs. That is a "
+                "region-containment fact on each entry, plus a call-graph closure showing user code is only run from "
+                "evaluation methods.",
+    assumptions=["C08's guarantees (the override is restored)", "user predicates are deterministic"],
+    design_ref="DESIGN.md §2 C09",
+))
